@@ -94,7 +94,10 @@ class MasterScheduler(BaseScheduler):
 
     async def _do_tick(self):
         """Continuously schedules ticks according to wakeups."""
-        if not self.wakeups:
+        while not self.wakeups:
+            # The flag may still be set for a wakeup which the previous tick has
+            # already served (it arrived just as that tick was starting).
+            self.new_wakeup.clear()
             await self.new_wakeup.wait()
         components, when = self.get_first_wakeups()
         assert when is not None
